@@ -14,7 +14,10 @@ try:
         p = os.path.join(scratch, e["file"])
         s = open(p).read()
         assert s.count(e["old"]) == 1
-        open(p, "w").write(s.replace(e["old"], e["new"]))
+        s = s.replace(e["old"], e["new"])
+        for o2, n2 in e.get("more", []):
+            s = s.replace(o2, n2)
+        open(p, "w").write(s)
     env = dict(os.environ, LR_REPO=scratch, LR_TARGET_SLOT="-st0", LR_EVIDENCE_DIR=scratch + "/.ev")
     out = subprocess.run([os.path.join(V, "check"), prop], cwd=V, env=env, capture_output=True, text=True)
     print(out.stdout[-3000:])
